@@ -242,12 +242,12 @@ CONDS = [
                "not shuf or (mode == 1 and b == 2 and not cases and not reload_)"], timeout=600,
               bounds="2x2 grid / 3 cases, two variables: all batchings (b in 1..3), reload on/off; plus every "
                      "sow-time shuffle permutation (batchsize 2)"),
-    make_cond(_G, "harvester", body_harvester, "n1:int pre:bool ow:int mode:int b:int reload_:bool base:int t:int p1:bool p2:bool",
-              ["1 <= n1 <= 2 and 0 <= ow <= 2 and 0 <= mode <= 2 and 1 <= b <= 2 and not p2", "pre or not p1"],
+] + split_conds(_G, "harvester", body_harvester, "n1:int pre:bool mode:int b:int reload_:bool base:int t:int p1:bool p2:bool",
+              ["1 <= n1 <= 2 and 0 <= mode <= 2 and 1 <= b <= 2 and not p2", "pre or not p1"], "ow", [0, 1, 2],
               timeout=900,
               bounds="Harvester crops vs direct harvest_combos: 1-2 settings, optional earlier data (equal or "
                      "conflicting), the three overwrite policies, all batchings, reload on/off: same exception "
-                     "behaviour, same full_ds, same disk dataset, same last_ds; crop kept iff the merge failed"),
+                     "behaviour, same full_ds, same disk dataset, same last_ds; crop kept iff the merge failed") + [
     make_cond(_G, "sampler", body_sampler, "n:int bs:int reload_:bool base:int i0:int i1:int i2:int i3:int",
               ["1 <= n <= 2 and 1 <= bs <= 2 and 0 <= i0 <= 1 and 0 <= i1 <= 1 and 0 <= i2 <= 1 and 0 <= i3 <= 1",
                "n == 2 or (i2 == 0 and i3 == 0)"], timeout=600,
